@@ -49,6 +49,11 @@ def run_case(ctx, S, a, b, m, tag, reuse=None):
         elif reuse == "copy" and prev is not None:
             s = prev.copy().domain([a, b])
             ctx.path("copied-scale-object")
+        elif reuse == "copy-sibling-asked-first" and prev is not None:
+            # two live scales related by copy() hold different domains; the other one is asked for the same count first
+            s = prev.copy().domain([a, b])
+            prev.ticks(m) if m is not None else prev.ticks()
+            ctx.path("copy-sibling-asked-first")
         else:
             s = S.TimeScale().domain([a, b])
         _REUSE["scale"] = s
@@ -78,7 +83,7 @@ def worker(ctx, shard):
     rng = ctx.rng("ticks%d" % shard["sub"])
     for _ in range(shard["n"]):
         a, b, m, tag = timedom.gen_time_domain(rng)
-        run_case(ctx, S, a, b, m, tag, reuse=rng.choice([None, None, None, "same-object", "copy"]))
+        run_case(ctx, S, a, b, m, tag, reuse=rng.choice([None, None, None, "same-object", "copy", "copy-sibling-asked-first"]))
     ctx.event("TimeScale.ticks", tm.events["ticks"])
     ctx.event("calendar.calls", sum(cm.calls.values()))
     for k, v in tm.paths.items():
